@@ -518,9 +518,9 @@ def gen_history(rng, nr, nc, borders=True, used=None):
             x = rng.random()
             ev = None
             if x < 0.25:
-                ev = ["rh", rng.randrange(nr), rng.choice([1, 5, 10, 19, 20, 21, 40, 100, 137, 200, rng.randrange(1, 300)])]
+                ev = ["rh", rng.randrange(nr), rng.choice([1, 5, 10, 19, 20, 21, 40, 100, 137, 200, 0, rng.randrange(1, 300)])]
             elif x < 0.45:
-                ev = ["cw", rng.randrange(nc), rng.choice([1, 30, 97, 98, 99, 150, 400, rng.randrange(1, 500)])]
+                ev = ["cw", rng.randrange(nc), rng.choice([1, 30, 97, 98, 99, 150, 400, 0, rng.randrange(1, 500)])]
             elif x < 0.8 and borders:
                 ev = stroke()
             else:
@@ -830,6 +830,10 @@ CORPUS = [
     {"source": {"fixture": "issue-69b.numbers"}, "table": [0, 0], "history": [["cycle"], ["cycle"]]},
     # a height set through the API, then two cycles without reading it
     {"source": {"new": {"rows": 4, "cols": 4}}, "table": [0, 0], "history": [["rh", 1, 100], ["cw", 1, 150], ["cycle"], ["cycle"]]},
+    # a custom size set, saved, then given up again (size 0 = the table's default), with and without a query in between
+    {"source": {"new": {"rows": 5, "cols": 4}}, "table": [0, 0], "history": [["rh", 2, 60], ["cw", 1, 150], ["cycle"], ["rh", 2, 0], ["cw", 1, 0], ["cycle"]]},
+    {"source": {"new": {"rows": 5, "cols": 4}}, "table": [0, 0], "history": [["rh", 2, 60], ["cycle"], ["q_h"], ["rh", 2, 0], ["q_rh", 2], ["q_h"], ["cycle"], ["q_h"]]},
+    {"source": {"fixture": "issue-69b.numbers"}, "table": [0, 0], "history": [["q_h"], ["rh", 0, 0], ["rh", 1, 0], ["q_h"], ["cycle"]]},
     # 8pt borders on one row and one column, sizes queried before every save
     {"source": {"new": {"rows": 4, "cols": 4}}, "table": [0, 0],
      "history": [["border", 1, 1, "left", 8.0, 1], ["border", 1, 1, "top", 8.0, 1], ["q_h"], ["q_w"], ["cycle"], ["q_h"], ["q_w"], ["cycle"]]},
